@@ -95,6 +95,8 @@ type pathState struct {
 	violations []*Violation
 	inconcl    []string
 	pcLen      int
+	facts      *term.Facts
+	quickPruned int
 	trivial    int
 	symAsserts int
 	pruned     int
@@ -116,6 +118,7 @@ type Stats struct {
 	QuerySat     int
 	QueryUnsat   int
 	QueryUnknown int
+	QuickPruned  int // alternatives refuted by partial evaluation under path equalities (no query)
 	Pruned       int // infeasible alternatives pruned at decision time
 	Trivial      int // assertions closed by the simplifier without a query
 	AssertsSym   int // assertions decided by the solver
@@ -127,6 +130,7 @@ type Stats struct {
 	Funcs        map[string]bool
 	Stubs        map[string]bool
 	Unsupported  []string
+	Infeasible   []string
 	Inconclusive []string
 	Engine       []string
 	Unwind       []string
@@ -352,7 +356,7 @@ func (m *Machine) resetPath() {
 
 func (m *Machine) runPath(e *Explorer, w workItem) {
 	m.resetPath()
-	ps := &pathState{prefix: w.prefix, unchecked: w.unchecked, asserts: map[string]bool{}}
+	ps := &pathState{prefix: w.prefix, unchecked: w.unchecked, asserts: map[string]bool{}, facts: term.NewFacts()}
 	ps.model = term.Model{}
 	if w.model != nil {
 		ps.model = w.model
@@ -412,8 +416,13 @@ func (m *Machine) runPath(e *Explorer, w workItem) {
 	}
 	st.Trivial += ps.trivial
 	st.Pruned += ps.pruned
+	st.QuickPruned += ps.quickPruned
 	st.AssertsSym += ps.symAsserts
 	switch out.Kind {
+	case "infeasible":
+		if len(st.Infeasible) < 10 {
+			st.Infeasible = append(st.Infeasible, fmt.Sprintf("%s (prefix %d, pos %d, trace %d)", out.Msg, len(ps.prefix), ps.pos, len(ps.trace)))
+		}
 	case "unsupported":
 		if len(st.Unsupported) < 20 {
 			st.Unsupported = append(st.Unsupported, out.Msg)
@@ -475,6 +484,7 @@ func (m *Machine) addPC(c *term.T) {
 	}
 	m.sol.Assert(c)
 	m.ps.pcLen++
+	m.ps.facts.Add(c)
 	if m.ps.modelValid && m.ps.ev.Eval(c) != 1 {
 		m.ps.modelValid = false
 	}
@@ -489,7 +499,7 @@ func (m *Machine) ensureModel() {
 	r, err := m.sol.Check()
 	switch r {
 	case term.Unsat:
-		panic(pathAbort{"infeasible", ""})
+		panic(pathAbort{"infeasible", "path condition unsat at " + m.stackString()})
 	case term.Unknown:
 		panic(pathAbort{"inconclusive", fmt.Sprintf("path feasibility unknown (%v)", err)})
 	}
@@ -531,6 +541,7 @@ func (m *Machine) decide(site string, conds []*term.T) int {
 			}
 			m.sol.Assert(conds[k])
 			ps.pcLen++
+			ps.facts.Add(conds[k])
 			m.ensureModel()
 		} else {
 			m.addPC(conds[k])
@@ -550,6 +561,10 @@ func (m *Machine) decide(site string, conds []*term.T) int {
 	}
 	for i, c := range conds {
 		if i == k || c.IsFalse() {
+			continue
+		}
+		if v, ok := ps.facts.PEval(c); ok && v == 0 {
+			ps.quickPruned++ // contradicts equalities already on the path condition
 			continue
 		}
 		// feasibility of the alternative is decided now; its model seeds the new path
@@ -679,6 +694,9 @@ func (m *Machine) assert(c *term.T, label string, known *term.T, knownID string)
 		try(nil, "")
 	}
 	// continue under the assumption that the assertion holds
+	if c.IsFalse() {
+		panic(pathAbort{"violated", "assertion " + label + " fails on every input of this path"})
+	}
 	m.addPC(c)
 }
 
